@@ -577,7 +577,8 @@ int main(int argc, char **argv)
     auto find = [&](const std::string &n) -> const Field * { for (auto &f : cat) if (f.name == n) return &f; return nullptr; };
 
     std::vector<Case> cases;
-    // corpus: minimized past failures first
+    // corpus: minimized past failures first (JMI / Call-Invite lost on the receive path, fixed in /repo 968e727;
+    // <addresses/> in both toXml parts, fixed in 7d68095) - the oracle keys stay, so a regression is reported again
     cases.push_back({ { { find("jingleMessageInitiationElement"), &find("jingleMessageInitiationElement")->variants[0] } } });
     cases.push_back({ { { find("callInviteElement"), &find("callInviteElement")->variants[0] } } });
     cases.push_back({ { { find("extendedAddresses"), &find("extendedAddresses")->variants[0] } } });
